@@ -5,13 +5,13 @@ import comp_check
 
 RULE = ("correspondence: random operation sequences (pushes incl. forced/dry-mass/sub-epsilon, pulls, pollutant pulls, "
         "evaporation, checks, balance calls, timestep ends with varying temperature) on Tank/ResidenceTank/DecayTank, "
-        "QueueTank/DecayQueueTank, Arc/PullArc/PushArc and QueueArc/DecayArc between tank-backed or scripted (accept all / "
+        "QueueTank/DecayQueueTank, Arc/PullArc/PushArc, QueueArc/DecayArc and AltQueueArc/DecayArcAlt between tank-backed or scripted (accept all / "
         "part / none, varying per call) neighbours, over random pollutant partitions; the whole observable state after "
         "every operation is compared exactly with the Gallina model. monitors: the C02 clauses evaluated directly on the "
         "implementation after every operation of fresh sequences. non-trivial = distinct sequence of >= 3 operations")
 
 if __name__ == "__main__":
-    sys.exit(comp_check.run("C02", "arc qarc qtank".split(), RULE,
+    sys.exit(comp_check.run("C02", "arc qarc altarc qtank".split(), RULE,
                             ["exact-rational semantics stands for float semantics up to rounding",
                              "offers are wet (non-negative, pollutant mass only with positive volume); no arc-level force for capacity clauses",
                              "end nodes respect the reply contract (proved for tank-backed ends)"]))
